@@ -1,8 +1,10 @@
 package dkv
 
 import (
+	"bytes"
 	"fmt"
 
+	"reduction.dev/reduction/dkv/kv"
 	"reduction.dev/reduction/dkv/recovery"
 	"reduction.dev/reduction/dkv/storage"
 	verif "reduction.dev/reduction/zz_verif"
@@ -22,7 +24,7 @@ func Harness_C09_Retention() {
 	db := Open(DBOptions{FileSystem: fs, MemTableSize: 20, TargetFileSize: 64, L0TableNumCompactionTrigger: 2}, nil)
 	m := newVerifModel()
 	var ckpts []verifCkpt // all checkpoints taken, in order; WAL file of the i-th is %06d.wal
-	retainedFrom := 0      // index of the oldest retained checkpoint
+	retainedFrom := 0     // index of the oldest retained checkpoint
 	k := verif.Param("K", 5)
 	for step := 0; step < k; step++ {
 		nops := 2*len(verifKeys) + 1
@@ -69,5 +71,83 @@ func Harness_C09_Retention() {
 		r := Open(DBOptions{FileSystem: root.WithWorkingDir(fmt.Sprintf("restore%d", i)), MemTableSize: 20, TargetFileSize: 64, L0TableNumCompactionTrigger: 2}, []recovery.CheckpointHandle{c.handle})
 		verifCheckReads(r, c.snap, "retained")
 	}
+	verif.Reached()
+}
+
+// Harness_C09_RescaleRetention: two old databases A and B (disjoint key ranges) whose WAL
+// numbering may have diverged (either may have taken an extra, abandoned checkpoint) take job
+// checkpoint 5 with state in the WAL only or also in tables. A new database owning everything
+// opens from both handles (either order) in A's directory, B's directory or a new one - a
+// redeployed operator keeps its directory - writes, and takes checkpoint 6. While checkpoint 5
+// is retained it must still restore to its contents from the recorded handles; after the job
+// retains only checkpoint 6 (and unreachable files are cleaned up) checkpoint 6 must restore.
+func Harness_C09_RescaleRetention() {
+	verif.FixedRand(3, 1, 4, 1, 5, 9, 2, 6)
+	verif.Abstract("bloom.Filter")
+	root := storage.NewMemoryFilesystem()
+	opts := func(fs storage.FileSystem, own kv.DataOwnership) DBOptions {
+		return DBOptions{FileSystem: fs, MemTableSize: 20, TargetFileSize: 64, L0TableNumCompactionTrigger: 2, DataOwnership: own}
+	}
+	ranges := [][2]int{{0, 2}, {2, 4}}
+	dirs := []string{"opA", "opB"}
+	want := map[string][]byte{}
+	var keys [][]byte
+	var handles []recovery.CheckpointHandle
+	for oi, r := range ranges {
+		db := Open(opts(root.WithWorkingDir(dirs[oi]), &verifOwner{r[0], r[1]}), nil)
+		if verif.Choose("abandoned-checkpoint-first", 2) == 1 {
+			_, err := db.Checkpoint(4)() // seals a WAL: this instance's WAL numbers run ahead
+			verif.Assert(err == nil, "checkpoint-succeeds")
+		}
+		writes := 1 + 2*verif.Choose("flushed", 2) // 1 = WAL only; 3 = the memtable sealed and flushed once
+		for w := 0; w < writes; w++ {
+			k := verifGKey(r[0]+w%2, byte('a'+w))
+			v := verif.Bytes("v", 1)
+			db.Put(k, v)
+			keys = append(keys, k)
+			want[string(k)] = v
+		}
+		verif.Assert(db.WaitOnTasks() == nil, "background-tasks-succeed")
+		h, err := db.Checkpoint(5)()
+		verif.Assert(err == nil, "checkpoint-succeeds")
+		handles = append(handles, h)
+		// the old operator is redeployed (same process): its database is closed and dropped
+		verif.Assert(db.Close() == nil, "close-succeeds")
+	}
+	verif.RunCleanups() // the old databases' in-memory objects are garbage now
+	all := &verifOwner{0, 4}
+	check := func(db *DB, exp map[string][]byte, id string) {
+		for _, k := range keys {
+			e, err := db.Get(k)
+			verif.Assert(err == nil && !e.IsDelete() && bytes.Equal(e.Value(), exp[string(k)]), id)
+		}
+	}
+	hs := []recovery.CheckpointHandle{handles[0], handles[1]}
+	if verif.Choose("recorded-order", 2) == 1 {
+		hs[0], hs[1] = hs[1], hs[0]
+	}
+	dir := []string{"opA", "opB", "opC"}[verif.Choose("directory-of-the-new-operator", 3)]
+	db := Open(opts(root.WithWorkingDir(dir), all), hs)
+	check(db, want, "rescaled-database-has-the-checkpointed-state")
+	after := map[string][]byte{}
+	for k, v := range want {
+		after[k] = v
+	}
+	nv := verif.Bytes("nv", 1)
+	db.Put(keys[0], nv)
+	after[string(keys[0])] = nv
+	h6, err := db.Checkpoint(6)()
+	verif.Assert(err == nil, "checkpoint-after-rescale-succeeds")
+
+	// checkpoint 5 is still retained: the handles the job recorded must still restore it
+	r5 := Open(opts(root.WithWorkingDir("restore5"), all), []recovery.CheckpointHandle{handles[0], handles[1]})
+	check(r5, want, "retained-checkpoint-still-restores-after-the-rescaled-database-checkpointed")
+
+	// the job retains only checkpoint 6
+	verif.Assert(db.UpdateRetainedCheckpoints([]uint64{6}) == nil, "retention-update-succeeds")
+	verif.Assert(db.WaitOnTasks() == nil, "background-tasks-succeed")
+	verif.RunCleanups()
+	r6 := Open(opts(root.WithWorkingDir("restore6"), all), []recovery.CheckpointHandle{h6})
+	check(r6, after, "newly-retained-checkpoint-restores-after-the-old-one-was-dropped")
 	verif.Reached()
 }
